@@ -19,6 +19,7 @@ package hmac
 import (
 	"github.com/sirupsen/logrus"
 
+	"github.com/cossacklabs/acra/crypto"
 	"github.com/cossacklabs/acra/decryptor/base"
 	encryptor "github.com/cossacklabs/acra/encryptor/base"
 	"github.com/cossacklabs/acra/encryptor/base/config"
@@ -55,7 +56,9 @@ func (e *SearchableDataEncryptor) EncryptWithClientID(clientID, data []byte, set
 			return nil, err
 		}
 		var encryptedData, hash []byte
-		if e.decryptor.MatchDataSignature(data) {
+		// value encrypted on app side is indexed by its decrypted content and stored as is; a value that only
+		// starts with an envelope is ordinary data that should be encrypted as a whole
+		if e.decryptor.MatchDataSignature(data) && crypto.IsEncryptedValue(data) {
 			// match AcraStruct/AcraBlock
 			logrus.WithField("decryptor", e.decryptor).Debugln("Try to decrypt for hashing")
 			encryptedData = data
